@@ -247,6 +247,11 @@ func judgeCommittee(res *Res, part string, el eligible, c Case, id uint64, got [
 		res.saw(part + ":overflow-panic")
 		return
 	}
+	if failed && c.Param != "" {
+		// corner-parameter runs: an error is an allowed outcome ("a committee or an error"); it is only counted
+		res.saw(part + ":failed:" + failure)
+		return
+	}
 	if failed {
 		res.violate(part+"-error-despite-enough-eligible", "%d eligible >= ask %d but the call failed: %s (flags %s tokens %v tries %d)",
 			len(el.addrs), c.Cnt, failure, c.Flags, c.Tokens, c.Tries)
@@ -269,6 +274,14 @@ func judgeCommittee(res *Res, part string, el eligible, c Case, id uint64, got [
 		}
 	}
 	if el.above64 {
+		return
+	}
+	if c.Tries < 1 {
+		// corner-parameter runs with a try count for which the specification defines no sampling (0, or not a
+		// positive machine integer): the committee must still be a valid one (checked above)
+		if len(res.Viol) == 0 {
+			res.saw(part + ":valid-committee-no-spec")
+		}
 		return
 	}
 	ref := newRefRng(mustHex(c.Seed), be8(id), []byte(c.ChainID))
